@@ -248,6 +248,8 @@ pub enum ReadMode {
     All,
     /// one `read()` per gate opening (lazy reader): gate k*1000+i
     Lazy,
+    /// wait for one gate opening (the explorer decides how much has arrived by then), then `read_all()`
+    LateAll,
     /// never touch the payload
     Abandon,
     /// the handler hands the payload to a task of its own (`take_payload`) that reads it to the end; the
@@ -705,6 +707,15 @@ async fn read_payload_v5(p: &v5::Publish, mode: ReadMode, k: usize, log: &Log, g
             Ok(b) => log.push(Rec::HPayload { k, bytes: b.to_vec(), err: None }),
             Err(e) => log.push(Rec::HPayload { k, bytes: vec![], err: Some(format!("{e:?}")) }),
         },
+        ReadMode::LateAll => {
+            let g = gates.enter();
+            gates.wait(g).await;
+            gates.st.borrow_mut()[g].exited = true;
+            match p.read_all().await {
+                Ok(b) => log.push(Rec::HPayload { k, bytes: b.to_vec(), err: None }),
+                Err(e) => log.push(Rec::HPayload { k, bytes: vec![], err: Some(format!("{e:?}")) }),
+            }
+        }
         ReadMode::Lazy => loop {
             let g = gates.enter();
             gates.wait(g).await;
@@ -728,6 +739,15 @@ async fn read_payload_v3(p: &v3::Publish, mode: ReadMode, k: usize, log: &Log, g
             Ok(b) => log.push(Rec::HPayload { k, bytes: b.to_vec(), err: None }),
             Err(e) => log.push(Rec::HPayload { k, bytes: vec![], err: Some(format!("{e:?}")) }),
         },
+        ReadMode::LateAll => {
+            let g = gates.enter();
+            gates.wait(g).await;
+            gates.st.borrow_mut()[g].exited = true;
+            match p.read_all().await {
+                Ok(b) => log.push(Rec::HPayload { k, bytes: b.to_vec(), err: None }),
+                Err(e) => log.push(Rec::HPayload { k, bytes: vec![], err: Some(format!("{e:?}")) }),
+            }
+        }
         ReadMode::Lazy => loop {
             let g = gates.enter();
             gates.wait(g).await;
@@ -1399,6 +1419,15 @@ pub async fn start_v5_client(cfg: &EpCfg) -> Conn {
                                 Ok(b) => log.push(Rec::HPayload { k, bytes: b.to_vec(), err: None }),
                                 Err(e) => log.push(Rec::HPayload { k, bytes: vec![], err: Some(format!("{e:?}")) }),
                             },
+                            ReadMode::LateAll => {
+                                let gg = rg.enter();
+                                rg.wait(gg).await;
+                                rg.st.borrow_mut()[gg].exited = true;
+                                match p.read_all().await {
+                                    Ok(b) => log.push(Rec::HPayload { k, bytes: b.to_vec(), err: None }),
+                                    Err(e) => log.push(Rec::HPayload { k, bytes: vec![], err: Some(format!("{e:?}")) }),
+                                }
+                            }
                             ReadMode::Lazy => loop {
                                 let gg = rg.enter();
                                 rg.wait(gg).await;
@@ -1522,6 +1551,15 @@ pub async fn start_v3_client(cfg: &EpCfg) -> Conn {
                                 Ok(b) => log.push(Rec::HPayload { k, bytes: b.to_vec(), err: None }),
                                 Err(e) => log.push(Rec::HPayload { k, bytes: vec![], err: Some(format!("{e:?}")) }),
                             },
+                            ReadMode::LateAll => {
+                                let gg = rg.enter();
+                                rg.wait(gg).await;
+                                rg.st.borrow_mut()[gg].exited = true;
+                                match p.read_all().await {
+                                    Ok(b) => log.push(Rec::HPayload { k, bytes: b.to_vec(), err: None }),
+                                    Err(e) => log.push(Rec::HPayload { k, bytes: vec![], err: Some(format!("{e:?}")) }),
+                                }
+                            }
                             ReadMode::Lazy => loop {
                                 let gg = rg.enter();
                                 rg.wait(gg).await;
